@@ -33,8 +33,8 @@ fn main() {
     ));
     let f = Flags { dbg: cfg!(debug_assertions), issue_atomic, patch_atomic, check_c07: true, check_c08: false };
     let seed = run.args.seed;
-    let n_issue = run.args.count(220, 2500);
-    let n_patch = run.args.count(260, 3000);
+    let n_issue = run.args.count(220, 1500);
+    let n_patch = run.args.count(260, 2000);
     for i in 0..n_issue {
         let id = format!("issue:{i}");
         if !run.args.wants(&id) {
